@@ -15,6 +15,7 @@ from tickit.core.typedefs import (
     Output,
     PortID,
     SimTime,
+    Skip,
 )
 
 LOGGER = logging.getLogger(__name__)
@@ -103,6 +104,21 @@ class NestedScheduler(BaseScheduler):
             )
         else:
             await super().update_component(input)
+
+    async def skip_component(self, skip: Skip) -> None:
+        """Passes over a component. "external" and "expose" are handled locally.
+
+        The mock components "external" and "expose" exist in every nested scheduler,
+        so their skips are propagated directly rather than published on a topic which
+        all nested schedulers share.
+
+        Args:
+            skip (Skip): The Skip information of the component which is passed over.
+        """
+        if skip.source in (ComponentID("external"), ComponentID("expose")):
+            await self.ticker.propagate(skip)
+        else:
+            await super().skip_component(skip)
 
     async def on_tick(
         self, time: SimTime, changes: Changes
